@@ -254,6 +254,11 @@ def build_items(spec: dict, s: int) -> List[Any]:
         return [tuple(Item(k, (s, i, j), truth=k != 0) for j, k in enumerate(tup)) for i, tup in enumerate(data)]
     if tool == "dict":
         return [(Item(k, (s, i, "k")), Item(v, (s, i, "v"))) for i, (k, v) in enumerate(data)]
+    if spec.get("same_objects"):
+        # the very same OBJECT handed out for every occurrence of a key (a repeated sentinel, an interned value, one
+        # record listed twice): each occurrence is an item like any other - its key is computed, it is compared
+        first: Dict[Any, Any] = {}
+        return [first.setdefault(k, Item(k, (s, i), truth=k != 0)) for i, k in enumerate(data)]
     return [Item(k, (s, i), truth=k != 0) for i, k in enumerate(data)]
 
 
